@@ -33,7 +33,9 @@ ASSUMPTIONS = [
     "pre-state is built directly (dict.__setitem__ + _keys / linked list through add) from descriptors and "
     "checked against the model before the operation; lodict pre-states hold lower-case keys only (its invariant)",
     "insert index restricted to 0..len (the statement is silent about negative / out-of-range indices)",
-    "pickle protocols 2..HIGHEST only (odicting documents that protocol >= 2 is required); pickled values are realised",
+    "pickle protocols 0, 1, 2, HIGHEST (quick) / all (thorough); failures under the legacy protocols 0 and 1 (rebuilt "
+    "through copyreg._reconstructor, which bypasses odict.__new__) carry their own class keys .../pickle/proto0-1/...; "
+    "pickled values are realised (domain {0, 1})",
     "results of binary set algebra (| & - ^) are checked for type, content and absence of duplicates, not for order "
     "(statement silent); in-place algebra must keep survivors in order and put new elements after them",
     "oset == oset with equal content but different order: either answer accepted (statement silent)",
@@ -349,9 +351,15 @@ def h_dict(sym, cls_name, op, maxn, maxarg, pre_keys, arg_keys, form=None, proto
                 m.items[i][1] = sym.realize(m.items[i][1])
             od = raw_build(cls, m.pairs(), rev)
             got = run(lambda: pickle.loads(pickle.dumps(od, proto)))
+            if proto < 2:
+                K = K + "/proto0-1"     # legacy protocols rebuild through copyreg._reconstructor: own class keys
+                sym.cover("legacy-protocol")
         must_ok(sym, got, K)
         c = got[1]
         chk(sym, type(c) is cls and c is not od, K + "/wrong-type-or-same-object")
+        usable = run(lambda: (c.items(), c.keys(), c.values(), list(c), len(c)))
+        if usable[0] != "ok":
+            fail(sym, K + "/duplicate-views-raise-" + usable[1], lambda: "original %r" % (m.pairs(),))
         same_dict(sym, c, m, K + "/duplicate", universe, cls_name)
         # independence: mutate the duplicate, the original must not move
         c["zz"] = 1
@@ -510,7 +518,7 @@ DICT_OPS = {
     "copy": ["nonempty", "empty"],
     "copy.copy": ["nonempty", "empty"],
     "deepcopy": ["nonempty", "empty"],
-    "pickle": ["nonempty", "empty"],
+    "pickle": ["nonempty", "empty", "legacy-protocol"],
     "create": ["form-pairs", "form-dict", "form-odict", "form-kw", "existing-key-kept"],
     "update": ["form-pairs", "form-dict", "form-odict", "form-kw"],
     "construct": ["form-pairs", "form-dict", "form-odict", "form-kw"],
@@ -817,9 +825,15 @@ def h_modict(sym, op, maxn, maxarg, pre_keys, arg_keys, form=None, protos=(2,)):
                 kv[1] = [sym.realize(v) for v in kv[1]]
             od = raw_build_modict(m.lists(), rev)
             got = run(lambda: pickle.loads(pickle.dumps(od, proto)))
+            if proto < 2:
+                K = K + "/proto0-1"
+                sym.cover("legacy-protocol")
         must_ok(sym, got, K)
         c = got[1]
         chk(sym, type(c) is modict and c is not od, K + "/wrong-type-or-same-object")
+        usable = run(lambda: (c.listitems(), c.items(), c.keys(), len(c)))
+        if usable[0] != "ok":
+            fail(sym, K + "/duplicate-views-raise-" + usable[1], lambda: "original %r" % (m.lists(),))
         if any(len(vs) > 1 for k, vs in m.items):
             sym.cover("multi-valued-key")
         same_modict(sym, c, m, K + "/duplicate", universe)
@@ -857,7 +871,7 @@ MODICT_OPS = {
     "copy": ["nonempty", "empty", "multi-valued-key"],
     "copy.copy": ["nonempty", "empty", "multi-valued-key"],
     "deepcopy": ["nonempty", "empty", "multi-valued-key"],
-    "pickle": ["nonempty", "empty", "multi-valued-key"],
+    "pickle": ["nonempty", "empty", "multi-valued-key", "legacy-protocol"],
 }
 MODICT_MULTI = ("update", "construct", "fromkeys")
 
@@ -1065,7 +1079,7 @@ def _works(fn):
 def obligations(tier):
     quick = tier == "quick"
     alpha = ALPHA["quick" if quick else "thorough"]
-    protos = (2, pickle.HIGHEST_PROTOCOL) if quick else tuple(range(2, pickle.HIGHEST_PROTOCOL + 1))
+    protos = (0, 1, 2, pickle.HIGHEST_PROTOCOL) if quick else tuple(range(0, pickle.HIGHEST_PROTOCOL + 1))
     budget = 600 if quick else 3000
     out = []
 
